@@ -29,6 +29,7 @@ NIB_BAD = {
     "nib_none": TypeError,
     "nib_str": TypeError,
     "nib_bytes": TypeError,
+    "nib_bytearray": TypeError,
     "nib_16": ValueError,
     "nib_neg": ValueError,
     "nib_strel": ValueError,
@@ -120,6 +121,7 @@ def make_bad(kind, good):
         "nib_none": None,
         "nib_str": "12",
         "nib_bytes": b"\x01\x02",
+        "nib_bytearray": bytearray(b"\x01\x02"),
         "nib_16": (1, 16),
         "nib_neg": (-1,),
         "nib_strel": (1, "a"),
